@@ -23,7 +23,7 @@ use rand_chacha::ChaCha8Rng;
 use serde_json::json;
 
 use crate::{
-    keys::{in_pool, setup, vk_image, POOLS},
+    keys::{in_pool, pk_full_digest, setup, vk_image, POOLS},
     ser::{compatible, fhex, g1_bytes, hex, FORMATS},
 };
 
@@ -158,16 +158,20 @@ fn subject<R: Relation + Send + Sync>(
     let base = vk_image(vk.vk());
     let base_vkb: Vec<Vec<u8>> = FORMATS.iter().map(|(f, _)| mvk_bytes(&vk, *f)).collect();
     let base_pkb = mpk_bytes(&pk, SerdeFormat::RawBytes);
+    let base_full = pk_full_digest(pk.pk());
 
     // determinism
     for &t in POOLS.iter() {
         for rep in 0..reps {
             ctx.count(&format!("keygen:pool{t}"));
-            let (vkb, img, pkb) = in_pool(t, || {
+            let (vkb, img, pkb, full) = in_pool(t, || {
                 let v = midnight_zk_stdlib::setup_vk(&params, relation);
                 let p = midnight_zk_stdlib::setup_pk(relation, &v);
-                (FORMATS.iter().map(|(f, _)| mvk_bytes(&v, *f)).collect::<Vec<_>>(), vk_image(v.vk()), mpk_bytes(&p, SerdeFormat::RawBytes))
+                (FORMATS.iter().map(|(f, _)| mvk_bytes(&v, *f)).collect::<Vec<_>>(), vk_image(v.vk()), mpk_bytes(&p, SerdeFormat::RawBytes), pk_full_digest(p.pk()))
             });
+            if full != base_full {
+                ctx.oracle_fail("keygen-nondeterministic:pk-derived:stdlib", "two key generations for the same parameters and relation gave proving keys whose recomputed parts differ", json!({"case": desc, "threads": t, "rep": rep}));
+            }
             if vkb != base_vkb || img != base {
                 ctx.oracle_fail("keygen-nondeterministic:vk:stdlib", "two key generations for the same parameters and relation gave different verifying keys", json!({"case": desc, "threads": t, "rep": rep}));
             }
@@ -269,6 +273,9 @@ fn subject<R: Relation + Send + Sync>(
                     } else {
                         if mpk_bytes(&p2, *fa) != pkb {
                             ctx.oracle_fail(&format!("pk-roundtrip-bytes:stdlib:{pair}"), "MidnightPK re-serialises to different bytes after write/read", json!({"case": desc, "pair": pair}));
+                        }
+                        if pk_full_digest(p2.pk()) != base_full {
+                            ctx.oracle_fail(&format!("pk-roundtrip-derived:stdlib:{pair}"), "the parts a reloaded MidnightPK recomputes differ from the generated key's", json!({"case": desc, "pair": pair}));
                         }
                         if vk_image(p2.pk().get_vk()) != base || p2.k() != pk.k() {
                             ctx.oracle_fail(&format!("pk-roundtrip-vk-identity:stdlib:{pair}"), "the verifying key inside a reloaded MidnightPK has another identity", json!({"case": desc, "pair": pair}));
